@@ -233,6 +233,8 @@ void footnote_free(footnote * f);
 char * label_from_token(const char * source, token * t);
 char * label_from_header(const char * source, token * t, scratch_pad * scratch);
 
+unsigned short random_anchor(unsigned int seed_base, unsigned int n);
+
 void parse_brackets(const char * source, scratch_pad * scratch, token * bracket, link ** link, short * skip_token, bool * free_link);
 
 
